@@ -1,0 +1,57 @@
+//go:build verif
+
+// Verification hooks (build tag "verif") for the low-entropy codec property: the wire-level wrappers
+// around the codec and the half-mask generator. Add-only: thin exported wrappers, no behaviour change.
+
+package protocol
+
+import (
+	"github.com/enfein/mieru/v3/pkg/appctl/appctlpb"
+)
+
+func verifLEDas(proto, mode uint8, halfMask uint32, rotation uint8, payloadLen, extractedPayloadLen uint16) *dataAckStruct {
+	return &dataAckStruct{
+		baseStruct:             baseStruct{protocol: proto},
+		lowEntropyMode:         mode,
+		payloadLen:             payloadLen,
+		lowEntropyMask:         halfMask,
+		extractedPayloadLen:    extractedPayloadLen,
+		lowEntropyMaskRotation: rotation,
+	}
+}
+
+// VerifEncodeLowEntropyEncrypted runs encodeLowEntropyEncryptedPayload (ciphertext body ‖ tag → encoded body ‖ tag).
+func VerifEncodeLowEntropyEncrypted(encryptedPayload []byte, proto, mode uint8, halfMask uint32, rotation uint8, payloadLen, extractedPayloadLen uint16) ([]byte, error) {
+	return encodeLowEntropyEncryptedPayload(encryptedPayload, verifLEDas(proto, mode, halfMask, rotation, payloadLen, extractedPayloadLen))
+}
+
+// VerifDecodeLowEntropyEncrypted runs decodeLowEntropyEncryptedPayload (encoded body ‖ tag → ciphertext body ‖ tag).
+func VerifDecodeLowEntropyEncrypted(wirePayload []byte, proto, mode uint8, halfMask uint32, rotation uint8, payloadLen, extractedPayloadLen uint16) ([]byte, error) {
+	return decodeLowEntropyEncryptedPayload(wirePayload, verifLEDas(proto, mode, halfMask, rotation, payloadLen, extractedPayloadLen))
+}
+
+// VerifPrepareLowEntropyDataAck runs prepareLowEntropyDataAckForSend and returns the half mask it generated.
+func VerifPrepareLowEntropyDataAck(proto, mode, rotation uint8, payloadLen, extractedPayloadLen uint16, plaintextPayloadLen int) (uint32, error) {
+	das := verifLEDas(proto, mode, 0, rotation, payloadLen, extractedPayloadLen)
+	err := prepareLowEntropyDataAckForSend(das, plaintextPayloadLen)
+	return das.lowEntropyMask, err
+}
+
+// VerifNewLowEntropyHalfMask runs newLowEntropyHalfMask.
+func VerifNewLowEntropyHalfMask(mode int) (uint32, error) {
+	return newLowEntropyHalfMask(appctlpb.LowEntropyMode(mode))
+}
+
+// VerifRotateLowEntropyMask runs rotateLowEntropyMask.
+func VerifRotateLowEntropyMask(initialMask uint64, rotation int, chunkIndex int) uint64 {
+	return rotateLowEntropyMask(initialMask, appctlpb.LowEntropyMaskRotation(rotation), chunkIndex)
+}
+
+// VerifLowBits runs lowBits.
+func VerifLowBits(n int) uint64 { return lowBits(n) }
+
+// VerifValidateLowEntropyCodecParams runs validateLowEntropyCodecParams.
+func VerifValidateLowEntropyCodecParams(mode int, halfMask uint32, rotation int) (sourceBytesPerChunk, halfMaskOnes int, err error) {
+	p, err := validateLowEntropyCodecParams(appctlpb.LowEntropyMode(mode), halfMask, appctlpb.LowEntropyMaskRotation(rotation))
+	return p.sourceBytesPerChunk, p.halfMaskOnes, err
+}
